@@ -12,10 +12,21 @@ RECV_FAULTS = ("reset", "timeout", "exc")
 WAIT_FAULTS = ("oserror", "exc")
 
 
-def base_script(case, stream_override=None, end_override=None, silent=False):
+PROXY_200 = b"HTTP/1.1 200 Connection established\r\nVia: 1.1 p\r\n\r\n"
+
+
+def base_script(case, stream_override=None, end_override=None, silent=False, proxy_override=None):
     pre = build.build_session(case["msgs"])
     post = build.build_session(case["msgs2"])
     script = [["wait_request"]]
+    if case.get("proxy"):
+        # the connection is made through an HTTP proxy: CONNECT, the proxy's answer, then the handshake proper
+        if proxy_override is not None:
+            if proxy_override[0]:
+                script.append(["stream", [["bytes", proxy_override[0]]], "whole", 0.0])
+            script.append(end_step(proxy_override[1], 0.0))
+            return script, pre, post
+        script += [["stream", [["bytes", PROXY_200]], case["seg"], 0.0], ["wait_requests", 2]]
     if stream_override is not None:
         script.append(["stream", [["bytes", stream_override]], "whole", 0.0])
         script.append(end_step(end_override, 0.0))
@@ -43,8 +54,9 @@ def end_step(end, dt):
     return ["reset", dt, end]
 
 
-def base_scenario(case, faults=None, addrs=None, resolve=None, stream_override=None, end_override=None, silent=False):
-    script, pre, post = base_script(case, stream_override, end_override, silent)
+def base_scenario(case, faults=None, addrs=None, resolve=None, stream_override=None, end_override=None, silent=False,
+                  proxy_override=None):
+    script, pre, post = base_script(case, stream_override, end_override, silent, proxy_override)
     reactions = copy.deepcopy(case["sends"])
     if case["client_close"] is not None:
         reactions.append({"when": ["msg", case["client_close"]], "do": [["close", 1000, "cli"]]})
@@ -57,6 +69,8 @@ def base_scenario(case, faults=None, addrs=None, resolve=None, stream_override=N
         att["resolve"] = resolve
     copts = {"poll": 1.0, "ping_rate": 1.0 if case["idle"] else 0, "close_timeout": 5.0}
     kw = {"url": "wss://example.test/"} if case.get("tls") else {}
+    if case.get("proxy"):
+        kw["ws_opts"] = {"proxies": {"http": "http://proxy.test:3128", "https": "http://proxy.test:3128"}}
     return build.scenario(script, reactions=reactions, connect_opts=copts, attempt_extra=att,
                           horizon=300.0 if silent else 2000.0, **kw)
 
@@ -69,7 +83,8 @@ class C09(Prop):
             "is then re-run once per (operation, fault): resolver error; connect refused on the first j of n addresses (all n and "
             "fewer); every sendall x {reset, timeout, arbitrary exception}; every recv x {reset, timeout, arbitrary exception}; "
             "the stream truncated at every byte offset (every offset up to 400 bytes, structure boundaries beyond) followed by EOF "
-            "and by reset (on wss:// also by a fatal TLS error that every later read repeats); every selector wait x {OSError, arbitrary exception}; shutdown/close raising. Oracle: nothing escapes "
+            "and by reset (on wss:// also by a fatal TLS error that every later read repeats); optionally the connection goes through an HTTP proxy, whose answer to CONNECT is then also cut at every byte offset; "
+            "every selector wait x {OSError, arbitrary exception}; shutdown/close raising. Oracle: nothing escapes "
             "next(), no hang, ConnectFail before Connected else Disconnected, graceful=False when no Close frame was ever sent or "
             "received, every socket released, application send errors are WebSocketError, C07 grammar. Non-trivial = fault strictly "
             "after Ready, or inside a frame, or on a library-initiated write. Each faulted execution counts as one evaluation.")
@@ -97,6 +112,8 @@ class C09(Prop):
             # wss:// - the socket is TLS-wrapped; the handshake of an address can fail after its TCP connect
             # succeeded, and a failed transport reports TLS errors
             "tls": gen.weighted([(2, st.just(False)), (1, st.just(True))]),
+            # through an HTTP proxy (CONNECT): every fault can then also hit the exchange with the proxy
+            "proxy": gen.weighted([(3, st.just(False)), (1, st.just(True))]),
             # an earlier connection in this process (same WebSocket object or another) and how it ended
             "prelude": gen.prelude(6),
             # a second live connection in the same process (interleaved with this one, or blocked in a send)
@@ -155,6 +172,13 @@ class C09(Prop):
         send_entries = [e for e in sim0.log if e[0] == "send"]
         names0 = base.names()
         ready_idx = names0.index("ready") if "ready" in names0 else None
+        connected_idx = names0.index("connected") if "connected" in names0 else len(names0)
+        all_sends = [e for e in sim0.log if e[0] in ("send", "send_fail")]
+        all_recvs = [e for e in sim0.log if e[0] in ("recv", "recv_eof", "recv_fail")]
+
+        def before_connected_op(entries, k):
+            # the k-th such call of the fault-free run happened before the Connected event was yielded
+            return k < len(entries) and entries[k][5] < connected_idx
 
         def run(what, key, nontrivial, before_connected=False, **kw):
             tr = simnet.run_scenario(base_scenario(case, **kw))
@@ -191,7 +215,7 @@ class C09(Prop):
                 if bad:
                     return failed(bad[0], bad[1], labels, False, sub)
         # 2b. TLS: the TCP connect of the first j addresses succeeds but their TLS handshake fails
-        if case.get("tls"):
+        if case.get("tls") and not case.get("proxy"):     # (through a proxy TLS starts on the established tunnel)
             for how in ("reset", "eof", "cert", "timeout"):
                 for j in range(1, n + 1):
                     addrs = [{"connect": "ok", "tls": how} for i in range(j)] + [{"connect": "ok"} for _ in range(n - j)]
@@ -219,7 +243,7 @@ class C09(Prop):
                 if lib and k > 0:
                     labels.add("fault:library_write")
                 bad = run("sendall #%d raises %s" % (k, f), "send:%d:%s" % (k, f), lib or after_ready,
-                          before_connected=(k == 0), faults={"send": {str(k): f}})
+                          before_connected=before_connected_op(all_sends, k), faults={"send": {str(k): f}})
                 if bad:
                     return failed(bad[0], bad[1], labels, True, sub)
         # 3b. "never leaves it waiting forever": a write fails WITHOUT breaking the transport
@@ -257,7 +281,7 @@ class C09(Prop):
             for f in RECV_FAULTS:
                 labels.add("fault:recv_" + f)
                 bad = run("recv #%d raises %s" % (k, f), "recv:%d:%s" % (k, f), k > 0,
-                          faults={"recv": {str(k): f}})
+                          before_connected=before_connected_op(all_recvs, k), faults={"recv": {str(k): f}})
                 if bad:
                     return failed(bad[0], bad[1], labels, True, sub)
         # 5. every selector wait
@@ -277,6 +301,16 @@ class C09(Prop):
                     bad = None   # close() itself was made to fail: nothing more the client can do
                 if bad:
                     return failed(bad[0], bad[1], labels, True, sub)
+        # 6b. through a proxy: its answer cut at every byte offset, then EOF / reset
+        if case.get("proxy"):
+            for k in range(0, len(PROXY_200)):
+                for end in ("eof", "reset"):
+                    labels.add("fault:proxy_reply_truncated_" + end)
+                    bad = run("proxy reply cut after %d of %d bytes then %s" % (k, len(PROXY_200), end),
+                              "pcut:%d:%s" % (k, end), True, before_connected=True,
+                              proxy_override=(PROXY_200[:k], end))
+                    if bad:
+                        return failed(bad[0], bad[1], labels, True, sub)
         # 7. truncation at every byte offset, then EOF / reset
         reply = httpref.build_reply(None, sim0.socks[-1].request)
         pre = build.build_session(case["msgs"])
